@@ -354,6 +354,28 @@ def is_transparent(name):
     return any(r.search(name) for r in _TRANSPARENT_RE)
 
 
+_KNOWN_FNS = None
+
+
+def known_fns():
+    """function paths that existed when the rule modules were written (tables/known_fns.txt). A crate-local function that
+    is NOT in this list was introduced by a later change (typically an extracted helper); the rules know nothing about
+    it, so calls to it are expanded in place: the caller's terms and event sequences read as if the helper were inlined."""
+    global _KNOWN_FNS
+    if _KNOWN_FNS is None:
+        import os
+        path = os.path.join(os.path.dirname(os.path.dirname(os.path.abspath(__file__))), "tables", "known_fns.txt")
+        try:
+            _KNOWN_FNS = set(open(path).read().split("\n"))
+        except OSError:
+            _KNOWN_FNS = set()
+    return _KNOWN_FNS
+
+
+def is_new_helper(prog, name):
+    return bool(name) and name in prog.fns and name not in known_fns() and "{closure#" not in name
+
+
 class Prov:
     """Flow-insensitive backward def-use slicing to symbolic terms."""
 
@@ -549,6 +571,16 @@ class Prov:
         args = tuple(self.operand(a, strip) for a in t["args"])
         if strip and is_transparent(name) and args:
             return args[0]
+        prog = getattr(self.b.fn, "prog", None)
+        if strip and prog is not None and getattr(self, "_inl", 0) < 3 and is_new_helper(prog, name):
+            cf = prog.fns[name]
+            sub = Prov(cf.body, self.depth)
+            sub._inl = getattr(self, "_inl", 0) + 1
+            try:
+                rt = sub.local(0, strip)
+                return subst_args(rt, {i + 1: a for i, a in enumerate(args)})
+            except RecursionError:
+                pass
         if strip and args:
             if re.search(r"Iterator>::enumerate$|^std::iter::Iterator::enumerate$", name):
                 return ("enum", args[0])
